@@ -11,13 +11,63 @@ def sig_of(rej, scn):
     mouse by event type and mode set (not by button)."""
     what = rej.get("what", "")
     why = rej.get("why")
-    m = re.match(r"key:U\+([0-9A-F]+):(mods=\d)", what)
+    m = re.match(r"key:U\+([0-9A-F]+):(mods=\d)(.*)", what)
     if m:
         c = int(m.group(1), 16)
-        cls = "letter" if chr(c).isalpha() and c < 128 else "digit" if chr(c).isdigit() else "space" if c == 32 else "punct" if c < 128 else "nonascii"
-        what = "key:%s:%s" % (cls, m.group(2))
+        cls = "nonascii" if c >= 128 else "letter" if chr(c).isalpha() else "digit" if chr(c).isdigit() else "space" if c == 32 else "punct"
+        what = "key:%s:%s%s" % (cls, m.group(2), m.group(3))
+    what = re.sub(r":(repeat|paste)$", "", what)      # a repeated or pasted key is encoded like a press: same class
+    if what.endswith(":release"):        # nothing may be written for any release: one class for the special keys, chords not told apart
+        what = re.sub(r"^key:[A-Z][A-Z0-9_]*:", "key:special:", what)
+        what = re.sub(r":mods=\d", "", what)
+    # the navigation keys of the keypad form one class
+    what = re.sub(r"^key:KP_(LEFT|RIGHT|UP|DOWN|HOME|END|PAGE_UP|PAGE_DOWN|INSERT|DELETE):", "key:KP_nav:", what)
+    if why == "nothing-written":         # a dropped key: the chord and the event type are in the replay file
+        what = re.sub(r":mods=\d", "", what)
     what = re.sub(r":button=\d+", "", what)
     return "C13:%s:%s" % (why, what)
+
+
+def presses(fn):
+    """a selfmut corruption applied to the key presses of a scenario only (releases and repeats have rules of their own)"""
+    return lambda evs: fn([evs[0]] + [e for e in evs[1:] if e.get("etype", "press") == "press"])
+
+
+def _pair(evs, pick, corrupt):
+    import copy
+    for e in evs[1:]:
+        if pick(e):
+            good = [evs[0], copy.deepcopy(e)]
+            corrupt(e)
+            return good, [evs[0], e]
+    return None
+
+
+def text_truncated(evs):
+    return _pair(evs, lambda e: e.get("ev") == "key" and e.get("name") == "" and e.get("mods") == 0 and e.get("etype") != "release"
+                 and len(e.get("text", [])) >= 1 and e.get("gottext") == e.get("text") and e.get("allkeys") and e.get("n", 0) >= 1,
+                 lambda e: e.update(gottext=e["gottext"][:-1]))
+
+
+def release_written(evs):
+    return _pair(evs, lambda e: e.get("ev") == "key" and e.get("etype") == "release" and not e.get("bytes"),
+                 lambda e: e.update(bytes=[97]))
+
+
+def keypad_enter_dropped(evs):
+    return _pair(evs, lambda e: e.get("ev") == "key" and e.get("name") == "KP_ENTER" and e.get("mods") == 0 and e.get("etype") != "release" and e.get("bytes") == [13],
+                 lambda e: e.update(bytes=[]))
+
+
+def keypad_nav_other_key(evs):
+    return _pair(evs, lambda e: e.get("ev") == "key" and e.get("name") == "KP_LEFT" and e.get("etype") != "release" and e.get("gotname") == "LEFT" and e.get("n") == 1,
+                 lambda e: e.update(gotname="RIGHT"))
+
+
+def altscroll_other_mode(evs):
+    return _pair(evs, lambda e: e.get("ev") == "mouse" and e.get("alt") and e.get("m1007") and e.get("button") in (64, 65) and e.get("bytes")
+                 and not (e["m1000"] or e["m1002"] or e["m1003"]) and e["bytes"][1] == (79 if e["decckm"] else 91),
+                 lambda e: e.update(decckm=not e["decckm"]))
 
 
 def extension_replies(c, drv, specs):
@@ -51,7 +101,11 @@ def main(c):
         "key code of the unshifted key, shifted code for Shift chords, text only for chords that produce text",
         "a chord is required to arrive intact when the xterm legacy encoding can carry it (Forward!Expressible); other chords are unconstrained",
         "legacy (non-SGR) mouse encodings are constrained only by the enabling rule (nothing written when not enabled)",
-        "alternate scroll (1007): on the alternate screen with no tracking mode a wheel step is one or more cursor-up/down keys (CSI or SS3 form), every other mouse event writes nothing",
+        "alternate scroll (1007): on the alternate screen with no tracking mode a wheel step is one or more cursor-up/down keys in the form the child's cursor-key mode selects, every other mouse event writes nothing",
+        "a printable key without Ctrl/Alt that carries text (grapheme cluster, AltGr level, Caps Lock, composed text with key code 0) must arrive as that text; "
+        "nothing is written for a key release; a repeat or pasted key is encoded like a press",
+        "keypad keys: digits and operators (with text, i.e. Num Lock on) arrive as their character, or as SS3 j-y/X under DECKPAM; Enter as CR, or SS3 M under DECKPAM; "
+        "the navigation keys of the keypad arrive as the cursor/editing key of the same name (either form), Begin as CSI E",
         "Ctrl with a key that shares its control code with other keys (NUL: Space/2/@, FS: 4/\\, GS: 5/], RS: 6/^, US: 7///_) must arrive as Ctrl + some key of that class",
     ]
     if not c.replay:
@@ -60,8 +114,13 @@ def main(c):
     rejects, _ = c.validate_traces(specs, "Forward_Trace.tla", "Forward_Trace.cfg", td)
     if not c.replay:
         c.cov["binding_selftest"] = vselftest.run(c, specs, "Forward_Trace.tla", "Forward_Trace.cfg", td, set(), [
-            ("key: decoded key does not match", selfmut.key_not_matching),
-            ("key: other cursor-key mode", selfmut.key_wrong_mode),
+            ("key: decoded key does not match", presses(selfmut.key_not_matching)),
+            ("key: other cursor-key mode", presses(selfmut.key_wrong_mode)),
+            ("key: text arrives truncated", text_truncated),
+            ("key: bytes written for a release", release_written),
+            ("key: keypad Enter dropped", keypad_enter_dropped),
+            ("key: keypad Left decoded as Right", keypad_nav_other_key),
+            ("mouse: alternate scroll in the other cursor-key form", altscroll_other_mode),
             ("paste: bracket missing", selfmut.paste_unbracketed),
             ("mouse: decoded column off by one", selfmut.mouse_off_by_one),
             ("mouse: report without tracking mode", selfmut.mouse_unrequested),
@@ -76,5 +135,7 @@ def main(c):
     c.confirm(drv, "c13", specs, "Forward_Trace.tla", "Forward_Trace.cfg", cands, sig_of)
     return c.finish(
         rule="scenario = child mode configuration (DECCKM x DECKPAM for keys; 1000 x 1002 x 1003 x 1006 for mouse; 2004 for paste) x input list "
-             "(36 special keys and 70+ printable keys x all 8 Shift/Alt/Ctrl subsets; 10 buttons x press/release/motion x positions up to column 319 / row 259); "
+             "(55 special keys, 29 of them on the keypad, and 70+ printable keys x all 8 Shift/Alt/Ctrl subsets; keys whose text is not their key code "
+             "(clusters, AltGr, Caps Lock, composed) typed, repeated and pasted; press/repeat/release/paste event types; "
+             "10 buttons x press/release/motion x positions up to column 319 / row 259; wheel steps under alternate scroll x DECCKM); "
              "distinct = distinct descriptor")
